@@ -48,14 +48,19 @@ def scopes(tier):
     if q:
         out.append(("two", dict(two, MaxSteps="6", Ts="{1, 2}", Us="{4, 1}")))
         out.append(("deep", dict(deep, MaxSteps="9", Ts="{1, 2, 3}", Us="{4, 1}")))
-        out.append(("rule-threshold", dict(rthr, MaxSteps="8", Ts="{1, 3}", T2s="{1, 2}")))
+        out.append(("rule-threshold", dict(rthr, MaxSteps="8", Ts="{0, 1, 3}", T2s="{1, 2}")))
+        # one source, plain and exception-matching events, long enough for burst / unban+1 silent rounds / again
+        out.append(("exc-one-source", dict(sp, NSrc="1", Kinds='{"n", "e"}', Dts="{1}", Modes='{"exc"}', T2s="{1}", MaxSteps="8",
+                                           Ts="{1, 2}", Us="{4}")))
         out.append(("classes", dict(cls, MaxSteps="4", Ts="{1, 2}", WithDisabled="TRUE", Modes='{"exc", "rules"}', T2s="{1, 2}")))
     else:
         for t in (1, 2, 3):
             for u in (4, 1):
                 out.append(("two-T%d-U%d" % (t, u), dict(two, MaxSteps="8", Ts="{%d}" % t, Us="{%d}" % u)))
                 out.append(("deep-T%d-U%d" % (t, u), dict(deep, MaxSteps="11", Ts="{%d}" % t, Us="{%d}" % u)))
-        for t in (1, 2, 3):
+        out.append(("exc-one-source", dict(sp, NSrc="1", Kinds='{"n", "e"}', Dts="{1}", Modes='{"exc"}', T2s="{1}", MaxSteps="9",
+                                           Ts="{1, 2, 3}", Us="{4}")))
+        for t in (0, 1, 2, 3):
             out.append(("rule-threshold-T%d" % t, dict(rthr, MaxSteps="9", Ts="{%d}" % t, T2s="{1, 2, 3}")))
         out.append(("classes-exc", dict(cls, MaxSteps="6", Ts="{1, 2}", WithDisabled="TRUE", Modes='{"exc"}', T2s="{1}")))
         for t in (1, 2):
@@ -63,6 +68,22 @@ def scopes(tier):
         out.append(("classes-rules-Tdisabled", dict(cls, MaxSteps="5", Ts="{}", WithDisabled="TRUE", Modes='{"rules"}', T2s="{1, 2}")))
         out.append(("classes-rules-deep", dict(cls, MaxSteps="6", Ts="{2}", Modes='{"rules"}', T2s="{1}")))
     return out
+
+
+def schedulable(c):
+    """History of the shape  arrivals* , K >= unban+1 maintenance rounds , arrivals+  (unban iterations = the pipeline's 4):
+    it can be replayed on a running pipeline whose own ticker does the maintenance: burst, pause, burst."""
+    if c["U"] != 4 or (c["mode"] == "rules" and c["T"] == -1):
+        return False
+    ops = [st[0] for st in c["steps"]]
+    k = sum(ops)
+    if k < c["U"] + 1 or ops[-1] == 1:
+        return False
+    first = ops.index(1)
+    if any(o == 0 for o in ops[first:first + k]):
+        return False
+    # something to judge after the pause
+    return any(st[0] == 0 and st[5] == 0 for st in c["steps"][first + k:])
 
 
 def strict_runs(ctx):
@@ -100,6 +121,9 @@ def run(ctx):
     # share of histories that also go through Pipeline.In (unban iterations are the constant 4 there)
     pipe_budget = 24000 if ctx.tier == "quick" else 100000
     pipe_candidates = []
+    sched = {}      # configuration -> histories for the "pipeline-scheduled maintenance" family
+    sched_budget = 400 if ctx.tier == "quick" else 4000   # per configuration
+    n_sched = 0
     samples = []
     with open(size_path, "w") as fsz, open(spam_path, "w") as fsp:
         for name, ov in scopes(ctx.tier):
@@ -127,6 +151,8 @@ def run(ctx):
                         # seeded choice of the histories that also go through Pipeline.In (trimmed below)
                         if ctx.rng.random() < 0.25:
                             pipe_candidates.append(line)
+                        if schedulable(c):
+                            sched.setdefault("%s/%s/%s" % (c["T"], c["T2"], c["mode"]), []).append(c)
                 if part not in picked or ctx.rng.random() < 0.001:
                     picked[part] = c
             samples.extend(picked.values())
@@ -135,6 +161,17 @@ def run(ctx):
         for line in pipe_candidates[:pipe_budget]:
             fsz.write(line + "\n")
             n_pipe_hist += 1
+        for key in sorted(sched):
+            cs = sched[key]
+            ctx.rng.shuffle(cs)
+            for c in cs[:sched_budget]:
+                fsz.write(json.dumps(dict(c, part="sched"), separators=(",", ":")) + "\n")
+                n_sched += 1
+        need = {"plain threshold": any(k.endswith("/exc") for k in sched),
+                "threshold 0 + rule": any(k.startswith("0/") and k.endswith("/rules") for k in sched),
+                "threshold > 0 + rule": any(not k.startswith("0/") and k.endswith("/rules") for k in sched)}
+        if not ctx.replay and not all(need.values()):
+            raise vlib.Infra("no schedulable history for configuration family: %s" % [k for k, v in need.items() if not v])
     if n_size < 1000 or n_spam < 10000:
         raise vlib.Infra("TLC exported too few cases: size %d, histories %d" % (n_size, n_spam))
     strict = strict_runs(ctx)
@@ -149,6 +186,8 @@ def run(ctx):
                     fsp.write(json.dumps(dict(r.get("match_case") or {}, part="match")) + "\n")
                 elif r.get("harness") == "antispam":
                     fsp.write(json.dumps(dict(c, part="spam")) + "\n")
+                elif r.get("harness") == "pipeline-scheduled":
+                    fsz.write(json.dumps(dict(c, part="sched")) + "\n")
                 elif r.get("harness") == "pipeline-antispam":
                     fsz.write(json.dumps(dict(c, part="spam")) + "\n")
                 else:
@@ -174,17 +213,23 @@ def run(ctx):
             raise vlib.Infra("antispam harness executed %d of %d matchrule cases" % (ra["match_cases"], n_match))
         if rp["hist"]["executed"] != n_pipe_hist:
             raise vlib.Infra("pipeline harness executed %d of %d histories" % (rp["hist"]["executed"], n_pipe_hist))
+        if rp["sched"]["executed"] != n_sched:
+            raise vlib.Infra("pipeline harness executed %d of %d scheduled-maintenance histories" % (rp["sched"]["executed"], n_sched))
+        if rp["sched"]["banned_then_admitted"] < 10:
+            raise vlib.Infra("scheduled-maintenance family inconclusive: only %d histories saw a ban followed by an admission" %
+                             rp["sched"]["banned_then_admitted"])
         if rp["size"]["executed"] < n_size:
             raise vlib.Infra("pipeline harness executed %d In calls for %d size cases" % (rp["size"]["executed"], n_size))
 
     # ---- classification
     recs = []
-    for v in (ra.get("violations") or []) + (rp["hist"].get("violations") or []) + (rp["size"].get("violations") or []):
+    for v in ((ra.get("violations") or []) + (rp["hist"].get("violations") or []) + (rp["sched"].get("violations") or []) +
+              (rp["size"].get("violations") or [])):
         recs.append(v)
     ctx.classify(recs)
     # the harnesses keep at most 8 records per class; credit known findings with the true number of occurrences
     totals = {}
-    for src in (ra, rp["hist"]):
+    for src in (ra, rp["hist"], rp["sched"]):
         for k, n in (src.get("violation_counts") or {}).items():
             totals[k] = totals.get(k, 0) + n
     kept = {}
@@ -219,7 +264,7 @@ def run(ctx):
 
     # ---- evidence
     ctx.evaluations = ra["steps"] + rp["hist"]["steps"] + rp["size"]["executed"]
-    ctx.traces_validated = ra["executed"] + ra["match_cases"] + rp["hist"]["executed"] + rp["size"]["executed"]
+    ctx.traces_validated = ra["executed"] + ra["match_cases"] + rp["hist"]["executed"] + rp["sched"]["executed"] + rp["size"]["executed"]
     ctx.nontrivial = ra["cases_with_ban"] + rp["size"]["cut_delivered"] + rp["size"]["kept_at_limit"]
     ctx.exhaustive = True
     ctx.rule = ("size: case = (body length 0..M+2, trailing newline, max_event_size 0..8, cut_off, cut-off field, decodable, "
@@ -227,16 +272,18 @@ def run(ctx):
                 "(%d In calls, %d delivered, %d cut and delivered, %d records exactly at the limit). antispam: %d maximal "
                 "histories (scopes %s), ALL replayed step by step on the real Antispammer (%d steps, %d ban transitions, %d unbans, "
                 "%d steps with a determined verdict), and a seeded sample of %d of them through the real Pipeline.In with the cri "
-                "decoder. matchrule: %d (rule set, data) cases, each through the real IsSpam as an exception on the event bytes, as an "
+                "decoder; %d histories of the shape burst / >= unban+1 maintenance rounds / burst on a RUNNING pipeline whose own ticker "
+                "schedules Maintenance (interval 25 ms, pause 3 x rounds + 300 ms; %d of them saw the ban and then the admission). matchrule: %d (rule set, data) cases, each through the real IsSpam as an exception on the event bytes, as an "
                 "exception on the source name and as an unlimited do_if rule. Non-trivial = histories in which the real antispammer banned a source + size cases that were cut and "
                 "delivered or sat exactly at the limit." %
                 (n_size, rp["size"]["executed"], rp["size"]["delivered"], rp["size"]["cut_delivered"], rp["size"]["kept_at_limit"],
-                 n_spam, json.dumps(per_scope), ra["steps"], ra["bans"], ra["unbans"], ra["determined"], n_pipe_hist, n_match))
+                 n_spam, json.dumps(per_scope), ra["steps"], ra["bans"], ra["unbans"], ra["determined"], n_pipe_hist, n_sched, rp["sched"]["banned_then_admitted"], n_match))
     for s in samples[:4]:
         ctx.sample(s)
     ctx.extra["c20"] = {"scopes": per_scope, "strict_runs": strict, "antispam_harness": {k: ra[k] for k in ra if k not in ("violations", "drift_samples")},
                         "pipeline_size": {k: rp["size"][k] for k in rp["size"] if k != "violations"},
-                        "pipeline_hist": {k: rp["hist"][k] for k in rp["hist"] if k not in ("violations", "drift_samples")}}
+                        "pipeline_hist": {k: rp["hist"][k] for k in rp["hist"] if k not in ("violations", "drift_samples")},
+                        "pipeline_scheduled": {k: rp["sched"][k] for k in rp["sched"] if k != "violations"}}
     ctx.assumptions += [
         "a source's threshold is a function of the source (rules match on source name); event-content rules that give one "
         "source several thresholds are outside the scope",
@@ -247,6 +294,8 @@ def run(ctx):
         "decoder fidelity is C12, not claimed); the probe decoder compares the exact bytes",
         "matchrule: alphabet {a, b, A}, values of length 1..2, data of length 0..3, one or two rules per set; the do_if variant of a "
         "rule (pipeline/doif, decided under C14) is compared with the same declarative meaning",
+        "scheduled-maintenance family: only admissions are asserted (records the statement says cannot be refused, in particular "
+        "after a pause of 3 x the silent rounds + 300 ms); nothing is ever required to be still banned",
         "IsSpam/Maintenance are replayed sequentially; concurrent callers of one source (unsynchronised read-modify-write) are not covered",
         "ban state = counter >= the source's threshold, read in-package after every step (Dump() cross-checked)",
     ]
